@@ -207,7 +207,7 @@ func (e *Exec) evalBuiltin(name string, call *ast.CallExpr, st *State, ctx *Ctx)
 		case isTreeList(t):
 			return []string{"(llen (ls " + v + "))"}
 		case isStringList(t):
-			return []string{"(sllen " + v + ")"}
+			return []string{"(sllen (sitems " + v + "))"}
 		case isRefList(t):
 			return []string{"(rllen " + v + ")"}
 		case sortOf(t) == "String":
@@ -235,6 +235,7 @@ func (e *Exec) evalBuiltin(name string, call *ast.CallExpr, st *State, ctx *Ctx)
 		case isStringList(t):
 			app, snoc = "sapp", "ssnoc"
 			elemT = t.Underlying().(*types.Slice).Elem()
+			base = "(sitems " + base + ")"
 		case isRefList(t):
 			app, snoc = "rapp", "rsnoc"
 			elemT = t.Underlying().(*types.Slice).Elem()
@@ -254,6 +255,9 @@ func (e *Exec) evalBuiltin(name string, call *ast.CallExpr, st *State, ctx *Ctx)
 			if isTreeList(t) {
 				y = "(ls " + y + ")"
 			}
+			if isStringList(t) {
+				y = "(sitems " + y + ")"
+			}
 			r = "(" + app + " " + r + " " + y + ")"
 		} else {
 			for _, a := range call.Args[1:] {
@@ -264,6 +268,17 @@ func (e *Exec) evalBuiltin(name string, call *ast.CallExpr, st *State, ctx *Ctx)
 		}
 		if isTreeList(t) {
 			r = "(VList " + r + ")"
+		}
+		if isStringList(t) {
+			// append(nil) with nothing appended stays nil; anything else is a non-nil slice
+			if len(call.Args) == 1 {
+				r = e.eval(call.Args[0], st, ctx)
+			} else if call.Ellipsis != token.NoPos {
+				b0 := e.eval(call.Args[0], st, ctx)
+				r = "(ite (and ((_ is SliceNil) " + b0 + ") (= (sitems " + e.eval(call.Args[1], st, ctx) + ") SNil)) SliceNil (Slice " + r + "))"
+			} else {
+				r = "(Slice " + r + ")"
+			}
 		}
 		return []string{r}
 	case "delete":
